@@ -461,7 +461,7 @@ func (w *worker) runJob(job *Job) (tr *Trace) {
 			bound = append(bound, boundSource{name: hs.Name, src: m, mem: m})
 		case "file":
 			path := filepath.Join(w.scratch, fmt.Sprintf("hist-%d-%s", job.ID, hs.Name))
-			os.Remove(path)
+			os.WriteFile(path, nil, 0o600)
 			src, err := readline.NewHistoryFromFile(path)
 			if err != nil {
 				tr.Err = "NewHistoryFromFile: " + err.Error()
@@ -469,6 +469,11 @@ func (w *worker) runJob(job *Job) (tr *Trace) {
 			}
 			for _, l := range hs.Lines {
 				src.Write(l)
+			}
+			// reopen, as an application starting with an existing file does
+			if src, err = readline.NewHistoryFromFile(path); err != nil {
+				tr.Err = "NewHistoryFromFile: " + err.Error()
+				return
 			}
 			sh.History.Add(hs.Name, src)
 			bound = append(bound, boundSource{name: hs.Name, src: src})
@@ -815,9 +820,10 @@ func (g *gate) Read(p []byte) (int, error) {
 
 	// Snapshot.
 	last := r.idx >= len(r.answers)-1 || ans.End
-	wantObs := r.want.Obs == 2 || (r.want.Obs == 1 && last)
-	wantHash := r.want.Hash == 2 || (r.want.Hash == 1 && last)
-	wantScr := r.want.Screen == 2 || (r.want.Screen == 1 && last)
+	from := r.idx >= r.want.From
+	wantObs := (r.want.Obs == 2 && from) || (r.want.Obs == 1 && last)
+	wantHash := (r.want.Hash == 2 && from) || (r.want.Hash == 1 && last)
+	wantScr := (r.want.Screen == 2 && from) || (r.want.Screen == 1 && last)
 	wt := Wait{Log: len(r.log)}
 	if wantObs || wantHash || wantScr {
 		w.syncTerm()
